@@ -36,11 +36,13 @@ func runC07(x *Ctx) {
 	x.C.Rule("C07.R5", "construct-side counterparts of decode-side validators", 5)
 	x.C.Rule("C07.R6", "generic decoder = typed decoders", 1)
 	x.C.Rule("C07.R7", "encoders return the codec's fresh output", 3)
+	x.C.Rule("C07.R8", "ordered containers (Args, Meta): a key is appended to the key list exactly when it is new in the map", 4)
 
 	for _, pk := range []string{"token/delegation", "token/invocation"} {
 		fieldBijection(x, pk)
 	}
 	codecPairing(x)
+	keysPairedWithValues(x)
 
 	parse, pub, from, cfc := x.fn("C07.R3", "did.Parse"), x.fn("C07.R3", "(did.DID).PubKey"), x.fn("C07.R3", "did.FromPubKey"), x.fn("C07.R3", "did.codeForCurve")
 	if parse != nil && pub != nil && from != nil && cfc != nil {
@@ -470,4 +472,121 @@ func freshEncoderOutput(x *Ctx) {
 		}
 		x.C.Obl("C07.R7", "fresh-output:"+name, x.pos(f), "Encode returns the byte slice produced by ipld.Encode for this call (not a view of a reused buffer)", ok, detail)
 	}
+}
+
+// keysPairedWithValues: Args and Meta serialise by walking Keys and looking each key up in Values, and the
+// decoders reject a repeated map key. A token whose container lists a key twice (or holds a value under a key
+// the list lacks) seals but cannot be unsealed losslessly. In packages args and meta, on every path: an
+// append of key K to X.Keys (X not a container built in this function) requires the fact that K was absent
+// from X.Values and a store X.Values[K] on the same path; a store X.Values[K] requires that append unless the
+// path knows K to be present (overwrite).
+func keysPairedWithValues(x *Ctx) {
+	isContainer := func(t types.Type) bool {
+		if p, ok := t.Underlying().(*types.Pointer); ok {
+			t = p.Elem()
+		}
+		s := t.String()
+		return s == load.Module+"/pkg/args.Args" || s == load.Module+"/pkg/meta.Meta"
+	}
+	for _, f := range x.P.ModuleFuncs() {
+		pp := x.P.PkgPathOf(f)
+		if (pp != load.Module+"/pkg/args" && pp != load.Module+"/pkg/meta") || len(f.Blocks) == 0 || !x.P.IsLibrary(f) {
+			continue
+		}
+		touches := false
+		for _, b := range f.Blocks {
+			for _, in := range b.Instrs {
+				switch v := in.(type) {
+				case *ssa.FieldAddr:
+					if isContainer(v.X.Type()) && paths.FieldName(v.X.Type().Underlying().(*types.Pointer).Elem().Underlying().(*types.Struct).Field(v.Field)) == "Keys" {
+						for _, r := range *v.Referrers() {
+							if st, ok := r.(*ssa.Store); ok && st.Addr == ssa.Value(v) {
+								touches = true
+							}
+						}
+					}
+				case *ssa.MapUpdate:
+					touches = true
+				}
+			}
+		}
+		if !touches {
+			continue
+		}
+		type ev struct{ base, key string }
+		bad, n := "", 0
+		for _, p := range x.pathsQuiet(f) {
+			var appends, updates []ev
+			p.InstrsIn(func(in ssa.Instruction, c *paths.Ctx) {
+				switch v := in.(type) {
+				case *ssa.Store:
+					at := c.Term(v.Addr)
+					if at.Op != "fieldaddr" || at.Name != "Keys" || !isContainer(v.Addr.(*ssa.FieldAddr).X.Type()) || at.Args[0].Op == "alloc" {
+						return
+					}
+					val := c.Term(v.Val)
+					base := at.Args[0].String()
+					if val.Op == "call" && val.Name == "builtin.append" && len(val.Args) == 2 && val.Args[0].String() == base+".Keys" && val.Args[1].Op == "varargs" {
+						for _, k := range val.Args[1].Args {
+							appends = append(appends, ev{base, k.String()})
+						}
+					}
+				case *ssa.MapUpdate:
+					mt := c.Term(v.Map)
+					if mt.Op != "field" || mt.Name != "Values" || mt.Args[0].Op == "alloc" || (mt.Args[0].Op == "load" && mt.Args[0].Args[0].Op == "alloc") {
+						return
+					}
+					if fa, ok := mt.Val.(*ssa.UnOp); !ok || !isFieldOfContainer(fa.X, isContainer) {
+						return
+					}
+					updates = append(updates, ev{mt.Args[0].String(), c.Term(v.Key).String()})
+				}
+			})
+			has := func(l []ev, e ev) bool {
+				for _, y := range l {
+					if y == e {
+						return true
+					}
+				}
+				return false
+			}
+			for _, a := range appends {
+				n++
+				absent := "lookup(" + a.base + ".Values," + a.key + ")#1"
+				if !p.HasFact(absent, false) {
+					bad += fmt.Sprintf("%s: key %s is appended to %s.Keys on a path that does not know it to be absent from %s.Values (a key already present would be listed twice)\n", load.ShortName(f), a.key, a.base, a.base)
+				}
+				if !has(updates, a) {
+					bad += fmt.Sprintf("%s: key %s is appended to %s.Keys without a value being stored under it on the same path\n", load.ShortName(f), a.key, a.base)
+				}
+			}
+			for _, u := range updates {
+				n++
+				present := "lookup(" + u.base + ".Values," + u.key + ")#1"
+				if !has(appends, u) && !p.HasFact(present, true) {
+					bad += fmt.Sprintf("%s: a value is stored under key %s of %s.Values without the key being appended to %s.Keys (it would not be serialised)\n", load.ShortName(f), u.key, u.base, u.base)
+				}
+			}
+		}
+		if n > 0 || bad != "" {
+			x.C.Obl("C07.R8", "paired:"+load.ShortName(f), x.pos(f), "keys are appended to the key list exactly when new in the map, together with their value", bad == "", dedupLines(bad))
+		}
+	}
+}
+
+func isFieldOfContainer(v ssa.Value, isContainer func(types.Type) bool) bool {
+	fa, ok := v.(*ssa.FieldAddr)
+	return ok && isContainer(fa.X.Type())
+}
+
+func dedupLines(s string) string {
+	seen := map[string]bool{}
+	var out []string
+	for _, l := range strings.Split(s, "\n") {
+		if l != "" && !seen[l] {
+			seen[l] = true
+			out = append(out, l)
+		}
+	}
+	return strings.Join(out, "\n")
 }
